@@ -28,12 +28,14 @@ from vf.models import insn_corpus as ic
 CHECK = dict(
     id="C14", level="exploration",
     rule=("16-byte candidates from the shared instruction corpus: a seed-independent walk over every class of "
-          "each decoder table (fixed prefix classes x ModRM forms on x86) plus seed-dependent random bytes, stratified opcode "
+          "each decoder table (fixed prefix classes x ModRM forms on x86, boundary values of every free field) plus a "
+          "seed-dependent stream -- VERIF_SEED selects one of 21 (quick) / 4 (thorough) swept streams, seed mod N -- of random bytes, stratified opcode "
           "enumeration, decoder-table templates with random free fields, curated vectors of "
           "test/arch with bit flips) decoded by mn.dis at a random aligned address in every "
           "arch/mode, then lifted; distinct = distinct (arch/mode, mnemonic, operand kinds); "
           "non-trivial = decoded and lifted or classified"),
-    assumptions=["the structural reading of the statement in the module docstring",
+    assumptions=["the seed-dependent part is drawn from a closed set of streams (VERIF_SEED mod 21 quick, mod 4 thorough); other seeds repeat a stream",
+                 "the structural reading of the statement in the module docstring",
                  "IRDst leaves that are not locations/constants (indirect jumps) need no edge",
                  "'unsupported' = NotImplementedError, KeyError(mnemonic)/ValueError from the dispatch frame, "
                  "or an exception whose message says not implemented / not supported"],
@@ -49,6 +51,7 @@ NSHARDS = 16
 
 
 def shards(tier, seed, scale):
+    seed = ic.stream_index("C14", tier, seed)
     per = max(10, int(PER_ARCH[tier] * scale / NSHARDS))
     # development aid: --scale < 1 also thins the walk (stride)
     stride = 1 if scale >= 1 else max(1, int(round(1 / scale)))
@@ -277,7 +280,7 @@ def run_shard(params, rec):
         walk = (params["shard"], params["nshards"], params.get("walk_rounds", 1), params.get("walk_stride", 1))
         for data, origin in ic.stream(spec, rng, params["seed"] * 64 + params["shard"], n, walk):
             # walk candidates get an address derived from their bytes (seed-independent)
-            addr = random_addr(spec, random.Random(data) if origin == "walk" else rng)
+            addr = random_addr(spec, random.Random(data) if origin.startswith("walk") else rng)
             instr, err = ic.decode(spec, data, addr)
             if instr is None:
                 rec.count("%s:undecodable" % spec.name)
